@@ -77,9 +77,14 @@ func weightsFor(profile string) map[string]int {
 		base["stake"] = 12
 	case "C17":
 		base["set_keys"] = 22
+		base["orch_release_steal"] = 3
 		base["poll_all"] = 12
 		base["ext_deposit"] = 10
 		base["stake"] = 4
+	case "C06":
+		base["gov"] = 4
+		base["node_restart"] = 4
+		base["clock_jump"] = 4
 	case "C01":
 		base["gov"] = 5
 	case "C05":
@@ -383,6 +388,25 @@ func (g *Gen) Step() {
 				g.emit(Intent{T: "byz_claim", V: v, Chain: ch, Pick: g.R.Intn(16), Net: ""})
 			}
 		}
+	case "orch_release_steal":
+		// a validator rotates its keys away and back, which releases its first orchestrator account; another
+		// validator then registers that account, and the account keeps sending claims
+		if len(w.Vals) < 2 {
+			break
+		}
+		v1 := g.R.Intn(len(w.Vals))
+		v2 := (v1 + 1 + g.R.Intn(len(w.Vals)-1)) % len(w.Vals)
+		ch := g.chain()
+		g.emit(Intent{T: "set_keys", V: v1, Chain: ch, Op: "fresh", Pick: g.R.Intn(len(w.Vals))})
+		g.emit(Intent{T: "block", Dt: 5, N: 1})
+		g.emit(Intent{T: "set_keys", V: v1, Chain: ch, Op: "back_to_first", Pick: g.R.Intn(len(w.Vals))})
+		g.emit(Intent{T: "block", Dt: 5, N: 1})
+		g.emit(Intent{T: "set_keys", V: v2, Chain: ch, Op: "steal_first_orch", Pick: v1})
+		g.emit(Intent{T: "block", Dt: 5, N: 1})
+		g.emit(Intent{T: "orch_poll", V: v1, Chain: ch, N: 3})
+		g.emit(Intent{T: "orch_sign", V: v1, Chain: ch, N: 3})
+		g.emit(Intent{T: "block", Dt: 5, N: 1})
+		w.St.Probe("orch-release-steal-scenario")
 	case "byz_first":
 		// a validator that kept up honestly so far reports the NEWEST event first, wrong in one field, and the
 		// honest majority reports the true event right after it
@@ -434,7 +458,7 @@ func (g *Gen) Step() {
 		}
 		g.emit(in)
 	case "set_keys":
-		ops := []string{"", "", "fresh", "fresh", "xchain", "xchain", "steal_ext", "steal_ext_key", "steal_ext_key", "steal_orch", "stale", "future", "wrong_key", "replay", "unknown_val", "other_signer", "rotate_orch", "rotate_orch_badsig", "share_orch", "share_orch", "self_orch"}
+		ops := []string{"", "", "fresh", "fresh", "xchain", "xchain", "steal_ext", "steal_ext_key", "steal_ext_key", "steal_orch", "stale", "future", "wrong_key", "replay", "unknown_val", "other_signer", "rotate_orch", "rotate_orch_badsig", "share_orch", "share_orch", "self_orch", "back_to_first"}
 		chains := append(append([]string{}, Chains...), "tron")
 		in := Intent{T: "set_keys", V: g.R.Intn(len(w.Vals)), Chain: chains[g.R.Intn(len(chains))], Op: ops[g.R.Intn(len(ops))], Pick: g.R.Intn(len(w.Vals)), Net: g.net()}
 		if g.R.Intn(8) == 0 {
@@ -456,6 +480,15 @@ func (g *Gen) Step() {
 	case "gov":
 		// a proposal, yes votes of every validator, then the voting period passes
 		t := g.token()
+		if (g.Profile == "C06" || g.Profile == "C05") && g.R.Intn(3) == 0 {
+			// only where nothing depends on the configured timeout: a parameter change
+			g.emit(Intent{T: "gov", Op: "param", V: g.R.Intn(len(w.Vals)), Amt: []string{"60000", "600000", "5000", "86400000"}[g.R.Intn(4)]})
+			g.emit(Intent{T: "block", Dt: 5, N: 1})
+			g.emit(Intent{T: "gov", Op: "vote"})
+			g.emit(Intent{T: "block", Dt: 5, N: 1})
+			g.emit(Intent{T: "block", Dt: 25, N: 1})
+			break
+		}
 		c05 := g.Profile == "C05" || g.Profile == "C05adv" || g.Profile == "C05size"
 		if (c05 && g.R.Intn(2) == 0) || ((g.Profile == "C01" || g.Profile == "C04" || os.Getenv("MHUBSIM_DELIST") != "") && g.R.Intn(4) == 0) {
 			// a token leaves the list while transfers of it are pending (refunds to its chain can no longer be created)
